@@ -603,7 +603,11 @@ def ascii_lower(s):
 
 
 def run(seed, n, run_step):
-    from habutax import pdf_filler
+    import warnings
+    with warnings.catch_warnings():
+        warnings.simplefilter('ignore')       # /repo has invalid escape sequences in some regex literals
+        from habutax import pdf_filler
+        from habutax import forms  # noqa: F401  (pulls in the modules that warn, once, silently)
     shares = [('parse', 0.30), ('parsefile', 0.08), ('malformed', 0.10), ('nonascii', 0.04), ('ops', 0.22),
               ('fdf', 0.08), ('pdfdec', 0.12), ('fill', 0.06)]
     plan = []
